@@ -49,6 +49,8 @@ type replayPlan struct {
 	leaves  []inputLeaf
 	roots   []replayRoot // parameters in order (receiver first)
 	partial []string     // inputs left zero (types the test cannot rebuild)
+	pre     []string     // declarations before the leaves are assigned
+	post    []string     // statements after the leaves are assigned (boxing of scenario values)
 	imports map[string]string
 	ok      bool
 	why     string
@@ -216,6 +218,26 @@ func (e *Exec) planReplay(st *State) {
 			name = fmt.Sprintf("arg%d", len(pl.roots))
 		}
 		pl.roots = append(pl.roots, replayRoot{Name: name, T: p.Type()})
+		if _, isIface := p.Type().Underlying().(*types.Interface); isIface {
+			if stT, ok := e.sct.types[p.Name()]; ok {
+				// the type scenario fixes the dynamic type of this interface parameter
+				if pt, isPtr := stT.Underlying().(*types.Pointer); isPtr {
+					pl.post = append(pl.post, fmt.Sprintf("%s = new(%s)", name, types.TypeString(pt.Elem(), e.qualifier())))
+				} else {
+					tmp := name + "_v"
+					pl.pre = append(pl.pre, fmt.Sprintf("var %s %s", tmp, types.TypeString(stT, e.qualifier())))
+					pl.post = append(pl.post, fmt.Sprintf("%s = %s", name, tmp))
+					e.describeInput(st, tmp, stT, e.sc.unbox(stT, "(i-pay "+v.S+")"), 0)
+				}
+				continue
+			}
+			if types.TypeString(p.Type(), nil) == "github.com/gocql/gocql.TypeInfo" {
+				// any type descriptor will do as long as the precondition holds on it (checked by the test)
+				pl.post = append(pl.post, fmt.Sprintf("%s = NativeType{proto: 4}", name))
+				pl.partial = append(pl.partial, name+" (a fixed NativeType)")
+				continue
+			}
+		}
 		e.describeInput(st, name, p.Type(), v.S, 0)
 	}
 	pl.ok = len(pl.leaves) > 0 && len(pl.leaves) < 4000
@@ -306,7 +328,7 @@ func (r *Report) replayObligation(o *Obligation, fr *FuncResult) replayOutcome {
 			return out
 		}
 		tr := &goTranslator{fr: fr, eng: r.eng}
-		p, err := tr.translate(cl)
+		p, err := tr.translate(fr.Sct.subst(cl))
 		if err != nil {
 			out.Reason = "postcondition not translatable to Go: " + err.Error()
 			return out
@@ -332,7 +354,7 @@ func (r *Report) runReplay(o *Obligation, fr *FuncResult, pl *replayPlan, post s
 	if fr.Contract != nil {
 		for _, c := range fr.Contract.Requires {
 			tr := &goTranslator{fr: fr, eng: r.eng}
-			p, err := tr.translate(c.Expr)
+			p, err := tr.translate(fr.Sct.subst(c.Expr))
 			if err != nil || len(tr.olds) > 0 {
 				preComplete = false
 				continue
@@ -431,6 +453,9 @@ func (r *Report) runReplay(o *Obligation, fr *FuncResult, pl *replayPlan, post s
 	for _, rt := range pl.roots {
 		fmt.Fprintf(&decl, "\tvar %s %s\n", rt.Name, types.TypeString(rt.T, qual))
 	}
+	for _, l := range pl.pre {
+		fmt.Fprintf(&decl, "\t%s\n", l)
+	}
 	nilPtr := map[string]bool{}
 	strs := map[string][]byte{}
 	strLen := map[string]int64{}
@@ -527,6 +552,9 @@ func (r *Report) runReplay(o *Obligation, fr *FuncResult, pl *replayPlan, post s
 			}
 			fmt.Fprintf(&decl, "\t{ b := make([]byte, %d); copy(b, []byte{%s}); %s = %s(b) }\n", n, lit(sls[path], n), path, gt)
 		}
+	}
+	for _, l := range pl.post {
+		fmt.Fprintf(&decl, "\t%s\n", l)
 	}
 	// 3. the call
 	sig := fn.Signature
